@@ -2,7 +2,7 @@
 # usage: tools/confirm_seed.sh <PROP> <mN> <caught_by...>  — independently confirms an agent mutant in its scratch worktree
 # (demo 0 on clean, 1 on mutated, test-suite failing set unchanged) and files it under /verif/seeded/<PROP>-<mN>/.
 P="$1"; M="$2"; shift 2
-WT=/tmp/wt/$P; SRC=/tmp/wt_out/$P/$M
+WT=${WTROOT:-/tmp/wt}/$P; SRC=${OUTROOT:-/tmp/wt_out}/$P/$M; TAG=${SEEDTAG:-}
 BASE_FAIL="tests/test_config.py::TestDefaultCodeFilter::test_excludes_site_packages tests/test_tracing.py::TestTraceCalls::test_access_property tests/test_tracing.py::TestTraceCalls::test_callee_throws_recovers tests/test_tracing.py::TestTraceCalls::test_caller_handles_callee_exception tests/test_tracing.py::TestTraceCalls::test_generator_trace tests/test_tracing.py::TestTraceCalls::test_nested_callee_throws_recovers tests/test_tracing.py::TestTraceCalls::test_return_none"
 [ -d "$WT" ] || git -C /repo worktree add --detach "$WT" "${BASE_REV:-HEAD}" -q
 cd "$WT" || exit 9
@@ -20,15 +20,15 @@ git checkout -q -- .
 ok=1; [ "$c" = 0 ] || ok=0; [ "$m" = 1 ] || ok=0; [ "$fails" = "$want" ] || ok=0
 echo "$P $M demo_clean=$c demo_mut=$m tests_same=$([ "$fails" = "$want" ] && echo yes || echo NO) :: $summary"
 if [ $ok = 1 ]; then
-  D=/verif/seeded/$P-$M; mkdir -p $D; cp $PATCH $D/patch.diff; cp $SRC/demo.py $D/; cp $SRC/notes.md $D/notes.md
-  /venv/bin/python - "$P" "$M" "$summary" "$@" <<'PY'
+  D=/verif/seeded/$P-$TAG$M; mkdir -p $D; cp $PATCH $D/patch.diff; cp $SRC/demo.py $D/; cp $SRC/notes.md $D/notes.md
+  /venv/bin/python - "$P" "$M" "$summary" "$SRC" "$D" "$@" <<'PY'
 import json,sys
-P,M,summary,*caught=sys.argv[1:]
-notes=open(f'/tmp/wt_out/{P}/{M}/notes.md').read()
+P,M,summary,SRC,D,*caught=sys.argv[1:]
+notes=open(f'{SRC}/notes.md').read()
 json.dump({"property":P,"origin":"independent sub-agent given only the property text and a scratch worktree",
  "needs_to_manifest":notes.strip()[:1500],
  "confirmed":{"demo_exit_clean_tree":0,"demo_exit_mutated_tree":1,"test_suite_with_mutant":summary,"failing_set_equals_baseline_always_fail":True,
    "how":"tools/confirm_seed.sh: scratch worktree, demo on clean tree, git apply, demo again, full pytest run, failing-test set compared with BASELINE always_fail"},
- "caught_by":caught}, open(f'/verif/seeded/{P}-{M}/meta.json','w'), indent=1)
+ "caught_by":caught}, open(f'{D}/meta.json','w'), indent=1)
 PY
 fi
